@@ -7,6 +7,7 @@ crossing the channel with at most k faults (only `env` choice points deviate,
 the schedule is the default one: the channel is half duplex).  Oracle: DESIGN
 section C04 / ref.depmodel.
 """
+import os
 import time as _time
 
 from mc.evidence import Run, sig_exc
@@ -46,49 +47,50 @@ def conversation(cfg):
     return ref.conversation(miu_it, miu_ti, cfg['rot'], cfg['n'])
 
 
-FRAMINGS = ('106A', '212F', '106A>212F')
+VARIANTS = [
+    # (did, nad, framing, rtox_at)   DID in a third of the variants: with a
+    # DID every timeout recovery fails (known finding), so those
+    # configurations mostly exercise framing and the LR bound
+    (None, None, '106A', None),
+    (1, None, '212F', None),
+    (None, 1, '106A>212F', 3),
+    (None, None, '212F', 1),
+    (1, 1, '106A', 2),
+    (None, 1, '106A', None),
+    (None, None, '106A>212F', 4),
+    (1, None, '106A>212F', None),
+]
 
 
 def grid(tier):
     """The real grid (stated in the evidence).  Every configuration runs one
-    conversation of 6 exchanges in which each of the six size classes
-    {1, MIU-1, MIU, MIU+1, 2MIU, 2MIU+1} occurs once per direction."""
+    conversation of 6 exchanges (more than 4 DEP PDUs, so PNI wraps) in which
+    each of the six size classes {1, MIU-1, MIU, MIU+1, 2MIU, 2MIU+1} occurs
+    once per direction; the target sizes are rotated against the initiator
+    sizes by `rot`."""
     cfgs = []
-    # orthogonal-array style assignment: all 16 (LRi, LRt) pairs; DID, NAD,
-    # framing, RTOX position and size rotation vary with the pair index so
-    # that every pair of factor values occurs.
-    variants = [
-        # (did, nad, framing, rtox_at)
-        (None, None, '106A', None),
-        (1, None, '212F', None),
-        (None, 1, '106A>212F', 3),
-        (1, 1, '106A', 2),
-        (None, None, '212F', 1),
-        (None, 1, '106A', None),
-        (1, None, '106A>212F', None),
-        (None, None, '106A>212F', 4),
-    ]
+    pairs = [(lri, lrt) for lri in range(4) for lrt in range(4)]
     if tier == 'quick':
-        per_pair, k_main = 4, 2
-    else:
-        per_pair, k_main = 8, 2
-    i = 0
-    for lri in range(4):
-        for lrt in range(4):
-            for v in range(per_pair):
-                did, nad, framing, rtox_at = variants[(i + v * 3 + lri) % 8] \
-                    if tier == 'quick' else variants[v]
+        # all 16 (LRi, LRt) pairs x 6 of the 8 variants (shifted per pair so
+        # that every variant meets every LRi and every LRt), k = 2
+        for i, (lri, lrt) in enumerate(pairs):
+            for v in range(6):
+                did, nad, framing, rtox_at = VARIANTS[(v + i + lri) % 8]
                 cfgs.append(make_cfg(framing, lri, lrt, did, nad,
-                                     rot=(i + v) % 6, rtox_at=rtox_at,
-                                     k=k_main))
-            i += 1
-    if tier == 'thorough':
-        # k = 3 on a sub-grid: LR pairs on the diagonal and the two extreme
-        # off-diagonal pairs, all eight variants
+                                     rot=(i + v) % 6, rtox_at=rtox_at, k=2))
+    else:
+        # k = 2: all 16 pairs x all 8 variants
+        for i, (lri, lrt) in enumerate(pairs):
+            for v in range(8):
+                did, nad, framing, rtox_at = VARIANTS[v]
+                cfgs.append(make_cfg(framing, lri, lrt, did, nad,
+                                     rot=(i + v) % 6, rtox_at=rtox_at, k=2))
+        # k = 3: the LR diagonal plus the two extreme off-diagonal pairs x
+        # all 8 variants
         j = 0
         for lri, lrt in ((0, 0), (1, 1), (2, 2), (3, 3), (0, 3), (3, 0)):
             for v in range(8):
-                did, nad, framing, rtox_at = variants[v]
+                did, nad, framing, rtox_at = VARIANTS[v]
                 cfgs.append(make_cfg(framing, lri, lrt, did, nad,
                                      rot=(j + 2) % 6, rtox_at=rtox_at, k=3))
                 j += 1
@@ -98,14 +100,26 @@ def grid(tier):
 def side_cfgs(tier):
     """Small separate scenarios."""
     out = []
-    # deadline expiry: the caller's timeout is too short for the recovery
+    k = 2 if tier == 'quick' else 3
+    # RTOX by the target before the response of every exchange x every size
+    # rotation (so that the RTOX meets every PNI value and chained as well as
+    # unchained responses)
+    for lri, lrt in ((0, 0), (3, 1)) if tier == 'quick' else (
+            (0, 0), (3, 1), (1, 2), (2, 3)):
+        for rot in range(6):
+            for rtox_at in range(6):
+                out.append(make_cfg('106A' if rot % 2 else '212F', lri, lrt,
+                                    None, None, rot, rtox_at, k=1,
+                                    kind='rtox'))
+    # deadline expiry: the caller's timeout is too short for the recovery;
+    # the only demands are safety and CommunicationError
     for t_ini in (0.5 * RWT, 1.5 * RWT, 2.5 * RWT):
-        for did in (None,):
-            out.append(make_cfg('106A', 1, 1, did, None, 0, None,
-                                k=2 if tier == 'quick' else 3, n=3,
-                                kind='deadline', t_ini=t_ini))
-    # active communication mode activation (ATR inside sense, PSL)
-    out.append(make_cfg('acm106A>212F', 2, 1, None, None, 1, None, k=2, n=3,
+        out.append(make_cfg('106A', 1, 1, None, None, 0, None, k=k, n=3,
+                            kind='deadline', t_ini=t_ini))
+    # active communication mode activation (ATR inside sense, then PSL)
+    out.append(make_cfg('acm106A>212F', 2, 1, None, None, 1, None, k=k, n=3,
+                        kind='acm'))
+    out.append(make_cfg('acm106A', 1, 2, 1, None, 4, None, k=2, n=3,
                         kind='acm'))
     # empty payload from the initiator (an INF PDU without data is legal)
     out.append(make_cfg('106A', 3, 3, None, None, 0, None, k=0, n=2,
@@ -121,6 +135,9 @@ class Obs(object):
         self.got_i, self.got_t = [], []
         self.i_exc = self.t_exc = None
         self.i_exc_at = self.t_exc_at = None
+        self.i_last = self.t_last = None     # receiver event before the exc
+        self.i_ctx, self.t_ctx = [], []      # (log length, event) per delivery
+        self.t_ok_ctx = None
         self.i_state = self.t_state = 'start'
         self.t_ok_calls = 0          # Target.exchange(data) returned a request
         self.t_none = False
@@ -163,12 +180,16 @@ def run_case(cfg, chooser):
             o.i_state = 'exchange'
             for n, (a, b) in enumerate(conv):
                 r = ini.exchange(ref.payload('I', n, a), cfg['t_ini'])
-                o.got_i.append(None if r is None else bytes(r))
+                o.got_i.append(b'<None>' if r is None else bytes(r))
+                o.i_ctx.append((len(chan.log), chan.last['I']))
             o.i_state = 'release'
             ini.deactivate()
             o.i_state = 'done'
+        except sched.HarnessError:
+            raise
         except Exception as e:      # judged by the oracle
             o.i_exc, o.i_exc_at = e, len(chan.log)
+            o.i_last = chan.last['I']
 
     def target():
         try:
@@ -185,6 +206,7 @@ def run_case(cfg, chooser):
                     o.t_none = True
                     break
                 o.got_t.append(bytes(r))
+                o.t_ctx.append((len(chan.log), chan.last['T']))
                 if n >= len(conv):
                     break
                 if cfg['rtox_at'] == n:
@@ -195,14 +217,21 @@ def run_case(cfg, chooser):
                 r = tgt.exchange(ref.payload('T', n, conv[n][1]), T_TGT)
                 if r is not None:
                     o.t_ok_calls += 1
+                    o.t_ok_ctx = (len(chan.log), chan.last['T'])
                 n += 1
             o.t_state = 'done'
+        except sched.HarnessError:
+            raise
         except Exception as e:      # judged by the oracle
             o.t_exc, o.t_exc_at = e, len(chan.log)
+            o.t_last = chan.last['T']
 
     s.spawn(initiator, 'I')
     s.spawn(target, 'T')
     s.run()
+    for vt in s.threads:
+        if vt.exc is not None:       # harness bug, never a finding
+            raise vt.exc
     o.verdict = s.verdict
     o.stuck = sched.format_stuck(s)
     o.t_end = s.now
@@ -212,6 +241,15 @@ def run_case(cfg, chooser):
 # ----------------------------------------------------------------------------
 # oracle
 # ----------------------------------------------------------------------------
+def xsig(exc):
+    """sig_exc with the module of non-builtin, non-nfc exception classes."""
+    mod = type(exc).__module__
+    sig = sig_exc(exc)
+    if mod not in ('builtins', 'nfc.clf'):
+        sig = mod + '.' + sig
+    return sig
+
+
 def fdesc(f):
     return '%s:%s>%s:%s' % (depchan.FATES[f.fate], f.src, f.dst,
                             f.p.pdu or f.p.kind)
@@ -236,45 +274,58 @@ def judge(cfg, o):
     vio = []
     info = {}
 
-    # where did the first failure happen, and which faults are to blame
-    fail_at = min([x for x in (o.i_exc_at, o.t_exc_at) if x is not None],
-                  default=len(log))
-    before = [f for f in faults if f.idx < fail_at]
+    def ctx(side, at, last):
+        """Where in the protocol and on which receiver event did `side`
+        fail: the step of the last frame on the channel, and what the side's
+        receiver saw last (~ marks a byte-identical retransmission)."""
+        if not log or not at:
+            step = '-'
+        else:
+            step = steps[step_of[min(at, len(log)) - 1]]['name']
+        if last is None:
+            ev = 'nothing'
+        elif last[0] == 'rx':
+            f = last[1]
+            retx = any(g.src == f.src and g.data == f.data
+                       and step_of[g.idx] == step_of[f.idx]
+                       for g in log[:f.idx])
+            ev = 'rx:%s%s' % (f.p.pdu or f.p.kind, '~' if retx else '')
+        else:
+            ev = last[0]
+        nf = '' if any(f.idx < (at or 0) for f in faults) else '|nofault'
+        return 'step=%s|%s:%s%s' % (step, side, ev, nf)
 
-    def blame(at=None):
-        at = fail_at if at is None else at
-        prior = [f for f in faults if f.idx < at]
-        if not prior:
-            return 'nofault'
-        if at == 0 or not log:
-            return 'nofault'
-        si = step_of[min(at, len(log)) - 1]
-        same = [f for f in prior if step_of[f.idx] == si]
-        st = steps[si]
-        if same:
-            return 'step=%s|%s' % (st['name'], '+'.join(fdesc(f) for f in same))
-        f = prior[-1]
-        return 'late|step=%s|%s' % (steps[step_of[f.idx]]['name'], fdesc(f))
+    def first_failure():
+        if o.i_exc is not None and (o.t_exc is None
+                                    or o.i_exc_at <= o.t_exc_at):
+            return ctx('I', o.i_exc_at, o.i_last)
+        if o.t_exc is not None:
+            return ctx('T', o.t_exc_at, o.t_last)
+        return ctx('-', len(log), None)
 
     # 1. the execution must end
     if o.verdict != 'finished':
-        vio.append(('C04|%s|did=%d|%s' % (o.verdict, did, blame()),
+        vio.append(('C04|%s|did=%d|%s' % (o.verdict, did, first_failure()),
                     'execution did not finish: %s %s' % (o.verdict, o.stuck)))
 
     # 2. only CommunicationError subclasses
     for side, exc, at in (('I', o.i_exc, o.i_exc_at), ('T', o.t_exc, o.t_exc_at)):
         if exc is not None and not isinstance(exc, CE):
-            vio.append(('C04|exception|%s|%s|%s' % (side, blame(at), sig_exc(exc)),
-                        '%s side raised %r, not a CommunicationError'
-                        % (side, exc)))
+            vio.append(('C04|exception|%s|did=%d|%s' % (side, did, xsig(exc)),
+                        '%s side raised %r, not a CommunicationError (%s)'
+                        % (side, exc, ctx(side, at, o.i_last if side == 'I'
+                                          else o.t_last))))
             info['foreign_exc'] = 1
 
     # 3. delivered payloads: exactly once, complete, in order, nothing else
-    for side, got, exp in (('T', o.got_t, exp_t), ('I', o.got_i, exp_i)):
+    for side, got, exp, cx in (('T', o.got_t, exp_t, o.t_ctx),
+                               ('I', o.got_i, exp_i, o.i_ctx)):
         bad = ref.check_delivery(got, exp)
         if bad is not None:
             i, cls = bad
-            vio.append(('C04|data|%s-got|%s|did=%d|%s' % (side, cls, did, blame()),
+            info['bad_data'] = 1
+            vio.append(('C04|data|%s-got|%s|did=%d|%s' % (
+                side, cls, did, ctx(side, cx[i][0], cx[i][1])),
                         '%s side: item %d delivered as %s: got %d bytes %s.., '
                         'expected %s' % (
                             side, i, cls, len(got[i]), got[i][:12].hex(),
@@ -282,11 +333,12 @@ def judge(cfg, o):
                             if i < len(exp) else 'nothing')))
     # a normal return claims delivery
     if len(o.got_i) > len(o.got_t):
-        vio.append(('C04|claim|I|did=%d|%s' % (did, blame()),
+        info['bad_data'] = 1
+        vio.append(('C04|claim|I|did=%d|%s' % (did, ctx('I', *o.i_ctx[-1])),
                     'Initiator.exchange returned %d times but only %d '
                     'payloads reached the target' % (len(o.got_i), len(o.got_t))))
-    if o.t_ok_calls > len(o.got_i):
-        vio.append(('C04|claim|T|did=%d|%s' % (did, blame()),
+    if o.t_ok_calls > len(o.got_i) and not info.get('bad_data'):
+        vio.append(('C04|claim|T|did=%d|%s' % (did, ctx('T', *o.t_ok_ctx)),
                     'Target.exchange returned a next request %d times but only'
                     ' %d responses reached the initiator'
                     % (o.t_ok_calls, len(o.got_i))))
@@ -334,15 +386,16 @@ def judge(cfg, o):
         required = True
         info['class'] = 'single-fault-steps' if faults else 'fault-free'
     info['required'] = int(required)
-    if required and not complete:
+    if required and not complete and not info.get('foreign_exc') \
+            and not info.get('bad_data') and o.verdict == 'finished':
         if o.i_exc is not None and (o.t_exc is None
                                     or o.i_exc_at <= o.t_exc_at):
-            who = 'I:' + sig_exc(o.i_exc)
+            who = xsig(o.i_exc)
         elif o.t_exc is not None:
-            who = 'T:' + sig_exc(o.t_exc)
+            who = xsig(o.t_exc)
         else:
             who = 'I=%s,T=%s' % (o.i_state, o.t_state)
-        vio.append(('C04|recover|did=%d|%s|%s' % (did, blame(), who),
+        vio.append(('C04|recover|did=%d|%s|%s' % (did, first_failure(), who),
                     'at most one fault per protocol step but the conversation '
                     'did not complete: initiator %d/%d %r, target %d/%d %r'
                     % (len(o.got_i), len(conv), o.i_exc, len(o.got_t),
@@ -373,33 +426,82 @@ def detail(cfg, chooser, o, vio):
 
 
 # ----------------------------------------------------------------------------
-# exploration of one configuration
+# exploration of one configuration (or of one slice of its fault tree)
 # ----------------------------------------------------------------------------
 def only_env(kind, label):
     return kind == 'env'
 
 
-def explore_cfg(cfg):
+class _Pin(object):
+    """Keep both OS threads of the virtual scheduler on one CPU while a
+    worker explores: the baton hand-off is then a same-core context switch
+    (measured 6x faster on a loaded machine; it changes nothing else)."""
+
+    def __enter__(self):
+        self.old = None
+        try:
+            import multiprocessing
+            ident = multiprocessing.current_process()._identity
+            if not ident:
+                return self
+            self.old = os.sched_getaffinity(0)
+            cpus = sorted(self.old)
+            os.sched_setaffinity(0, {cpus[(ident[0] - 1) % len(cpus)]})
+        except (AttributeError, OSError):
+            self.old = None
+        return self
+
+    def __exit__(self, *a):
+        if self.old:
+            try:
+                os.sched_setaffinity(0, self.old)
+            except OSError:
+                pass
+
+
+def roots_of(cfg):
+    """First-level branches of the fault tree: one per (env choice point of
+    the fault-free execution, non-deliver fate)."""
+    ch = sched.Chooser(())
+    run_case(cfg, ch)
+    out = []
+    for i, (n, costs, c, kind, label) in enumerate(ch.log):
+        if kind == 'env':
+            for alt in range(1, n):
+                out.append(tuple([0] * i + [alt]))
+    return out
+
+
+def explore_item(item):
+    """item = (cfg, part, parts).  parts == 1: the whole tree of cfg with
+    mc.explore.  parts > 1: slice `part` of the first-level branches (the
+    fault-free execution belongs to slice 0); every slice is explored by
+    mc.explore below its root with the remaining budget, which visits exactly
+    the executions mc.explore would visit below that branch."""
+    cfg, part, parts = item
+    with _Pin():
+        return _explore_item(cfg, part, parts)
+
+
+def _explore_item(cfg, part, parts):
     run = Run(PROP)
     ck = cfg_key(cfg)
-    st = explore.Stats()
     t0 = _time.time()
-    frames = [0, 0]
-
-    def run_one(ch):
-        return run_case(cfg, ch)
+    acc = dict(frames=0, max_frames=0, execs=0, by_cost={}, max_depth=0)
 
     def visit(ch, o):
+        ch = o.chooser
         vio, info = judge(cfg, o)
         dev = ch.cost
         key = (ck, tuple(ch.choices))
-        frames[0] += len(o.chan.log)
-        frames[1] = max(frames[1], len(o.chan.log))
+        acc['execs'] += 1
+        acc['by_cost'][dev] = acc['by_cost'].get(dev, 0) + 1
+        acc['frames'] += len(o.chan.log)
+        acc['max_frames'] = max(acc['max_frames'], len(o.chan.log))
+        acc['max_depth'] = max(acc['max_depth'], len(ch.log))
         if vio:
-            d = None
+            d = detail(cfg, ch, o, vio)
             for sig, msg in vio:
-                if d is None:
-                    d = detail(cfg, ch, o, vio)
                 run.fail(sig, d, key=key, deviations=dev)
             run.evaluations -= len(vio) - 1
         else:
@@ -417,6 +519,8 @@ def explore_cfg(cfg):
         if 'act_clean' in info:
             run.count('activation_fault_clean' if info['act_clean']
                       else 'activation_fault_one_side_continues')
+        if info.get('lr_exceeded'):
+            run.count('executions_with_frame_over_LR')
         if o.t_none:
             run.count('target_returned_None')
         if isinstance(o.i_exc, Exception):
@@ -428,21 +532,50 @@ def explore_cfg(cfg):
         if o.chan.stale_dropped:
             run.count('stale_frames_dropped', o.chan.stale_dropped)
         run.outcome(outcome_class(cfg, o, info))
-        if dev == cfg['k'] and len(run.samples) < 1 and dev > 0:
-            run.sample(dict(cfg=cfg, faults=[f.label + '=' + depchan.FATES[f.fate]
-                                             for f in o.chan.faults()],
-                            frames=len(o.chan.log),
-                            delivered=[len(o.got_i), len(o.got_t)],
-                            i_exc=repr(o.i_exc), t_exc=repr(o.t_exc),
-                            verdict=[s for s, m in vio] or 'ok'))
+        if dev == cfg['k'] and dev > 0 and not run.samples and part == 0:
+            run.sample(dict(
+                cfg=cfg, conversation=conversation(cfg),
+                faults=[f.label + '=' + depchan.FATES[f.fate]
+                        for f in o.chan.faults()],
+                frames=len(o.chan.log), virtual_seconds=round(o.t_end - 1000, 4),
+                delivered=dict(initiator=len(o.got_i), target=len(o.got_t)),
+                i_exc=repr(o.i_exc), t_exc=repr(o.t_exc),
+                target_returned_None=o.t_none,
+                verdict=[sg for sg, m in vio] or 'ok'))
 
-    explore.explore(run_one, cfg['k'], visit, stats=st, cost_filter=only_env)
+    def below(root):
+        def run_one(ch):
+            inner = sched.Chooser(list(root) + list(ch.prefix))
+            o = run_case(cfg, inner)
+            if inner.i < len(inner.prefix):
+                raise sched.HarnessError("replay divergence below %r" % (root,))
+            ch.log = inner.log[len(root):]
+            ch.i = inner.i - len(root)
+            o.chooser = inner
+            return o
+        return run_one
+
+    if parts == 1:
+        explore.explore(below(()), cfg['k'], visit, cost_filter=only_env)
+    else:
+        if part == 0:
+            explore.explore(below(()), 0, visit, cost_filter=only_env)
+        if cfg['k'] >= 1:
+            for j, root in enumerate(roots_of(cfg)):
+                if j % parts == part:
+                    explore.explore(below(root), cfg['k'] - 1, visit,
+                                    cost_filter=only_env)
     out = run.export()
-    out['stats'] = dict(cfg=cfg, executions=st.executions,
-                        by_cost=st.by_cost, max_depth=st.max_depth,
-                        choice_points=st.choice_points, frames=frames[0],
-                        max_frames=frames[1], wall=_time.time() - t0)
+    out['stats'] = dict(cfg=cfg, part=part, parts=parts,
+                        executions=acc['execs'], by_cost=acc['by_cost'],
+                        max_depth=acc['max_depth'], frames=acc['frames'],
+                        max_frames=acc['max_frames'],
+                        wall=_time.time() - t0)
     return out
+
+
+def explore_cfg(cfg):
+    return _explore_item(cfg, 0, 1)
 
 
 # ----------------------------------------------------------------------------
@@ -453,15 +586,16 @@ def main(tier='quick', seed=0, part=None):
         cfgs += grid(tier)
     if part in (None, 'side'):
         cfgs += side_cfgs(tier)
-    # walk order: seed permutes, then the expensive ones first (stable)
-    cfgs = par.shuffled(cfgs, seed)
-    cfgs.sort(key=lambda c: -c['k'])
-    execs = 0
+    # the seed permutes the walk order only; expensive items first
+    items = []
+    for cfg in par.shuffled(cfgs, seed):
+        parts = 8 if cfg['k'] >= 3 else 1
+        items += [(cfg, p, parts) for p in range(parts)]
+    items.sort(key=lambda it: -it[0]['k'])
+    per_cfg = {}
+    execs = frames = max_frames = 0
     by_cost = {}
-    per_cfg = []
-    frames = 0
-    max_frames = 0
-    for res in par.pmap(explore_cfg, cfgs):
+    for res in par.pmap(explore_item, items):
         st = res.pop('stats')
         run.merge(res)
         execs += st['executions']
@@ -469,51 +603,65 @@ def main(tier='quick', seed=0, part=None):
         max_frames = max(max_frames, st['max_frames'])
         for k, v in st['by_cost'].items():
             by_cost[k] = by_cost.get(k, 0) + v
-        per_cfg.append(st)
-    per_cfg.sort(key=lambda s: cfg_key(s['cfg']))
+        e = per_cfg.setdefault(cfg_key(st['cfg']), dict(
+            cfg=st['cfg'], executions=0, max_frames=0, wall=0.0))
+        e['executions'] += st['executions']
+        e['max_frames'] = max(e['max_frames'], st['max_frames'])
+        e['wall'] += st['wall']
     run.rule = ("one case = (configuration, fate script): a complete "
-                "conversation of real nfc.dep.Initiator and Target over "
-                "sim.depchan with the script's fates; all scripts with <= k "
-                "non-deliver fates are enumerated per configuration by "
+                "conversation of the real nfc.dep.Initiator and Target over "
+                "sim.depchan under that script; per configuration all "
+                "scripts with <= k non-deliver fates are enumerated by "
                 "mc.explore (env choice points only); distinct = distinct "
                 "(configuration, choice list); non-trivial = at least one "
                 "fault in the script")
     run.assumptions += [
         "sim.depchan is the trusted model of two chipsets and the air: a lost "
         "frame makes the waiting exchange() raise TimeoutError after its "
-        "timeout of virtual time, a corrupted frame makes the receiver's "
+        "timeout of virtual time; a corrupted frame makes the receiver's "
         "exchange() raise TransmissionError and the sender time out; frames "
-        "take no time; the target answers within RWT (virtual time), so late "
-        "responses are not modelled",
+        "take no time and the target answers at once, so late responses and "
+        "timer races are not modelled",
         "a fault on ATR/PSL or on the first DEP_REQ (consumed inside the "
         "fake listen(), which then returns None like a driver) is only "
-        "required to fail cleanly, not to be recovered",
+        "required to fail without foreign exceptions or wrong data, not to "
+        "be recovered",
+        "protocol step = one initiator INF/ACK/RTOX PDU with its response, "
+        "the ATN/NAK traffic and byte-identical retransmissions up to the "
+        "next such PDU; transparent recovery is demanded when no step has "
+        "more than one faulted frame, the caller timeouts being generous "
+        "(initiator %.1f s per PDU, target %.1f s per exchange, RWT %.3f s)"
+        % (T_INI, T_TGT, RWT),
         "default thread schedule only (half-duplex channel, strict "
-        "alternation); no preemptions or timer races are explored",
+        "alternation); no preemptions are explored",
         "payload sizes are the six boundary classes around the reference MIU "
         "(receiver LR - 3 - DID - NAD) per direction, one conversation of 6 "
-        "exchanges per configuration; the grid is a covering selection of "
-        "LRi x LRt x DID x NAD x framing x RTOX, not the full product",
-        "faults beyond k per conversation are not explored",
+        "exchanges per grid configuration; the grid is a covering selection "
+        "from LRi x LRt x DID x NAD x framing x RTOX, not the full product "
+        "(see coverage.grid)",
+        "scripts with more than k faults per conversation are not explored "
+        "(nothing is sampled beyond the bound)",
     ]
-    ks = sorted(set(c['k'] for c in cfgs))
+    ks = {}
+    for c in cfgs:
+        ks[c['k']] = ks.get(c['k'], 0) + 1
     run.extra['bounds'] = dict(
-        fault_bound_k=ks, configurations=len(cfgs),
+        configurations=len(cfgs), configurations_by_fault_bound_k=ks,
         executions=execs, executions_by_fault_count=by_cost,
         frames_total=frames, max_frames_in_one_execution=max_frames,
-        caller_timeout_s=dict(initiator=T_INI, target=T_TGT, listen=T_ACT),
-        rwt_s=RWT, caps_hit=[])
+        fates=list(depchan.FATES), caps_hit=[],
+        bound_completed="every configuration explored to its k")
     run.extra['grid'] = [
-        dict(framing=s['cfg']['framing'], lri=ref.LR[s['cfg']['lri']],
-             lrt=ref.LR[s['cfg']['lrt']], did=s['cfg']['did'],
-             nad=s['cfg']['nad'], rtox_at=s['cfg']['rtox_at'],
-             kind=s['cfg']['kind'], k=s['cfg']['k'],
-             sizes=conversation(s['cfg']), executions=s['executions'],
-             max_frames=s['max_frames'], wall_s=round(s['wall'], 2))
-        for s in per_cfg]
+        dict(kind=e['cfg']['kind'], framing=e['cfg']['framing'],
+             lri=ref.LR[e['cfg']['lri']], lrt=ref.LR[e['cfg']['lrt']],
+             did=e['cfg']['did'], nad=e['cfg']['nad'],
+             rtox_at=e['cfg']['rtox_at'], k=e['cfg']['k'],
+             sizes=conversation(e['cfg']), executions=e['executions'],
+             max_frames=e['max_frames'], cpu_wall_s=round(e['wall'], 2))
+        for key, e in sorted(per_cfg.items())]
     run.extra['traces_validated_against_impl'] = execs
-    print("C04 configurations=%d executions=%d by_faults=%s" % (
-        len(cfgs), execs, dict(sorted(by_cost.items()))))
+    print("C04 tier=%s configurations=%d executions=%d by_faults=%s" % (
+        tier, len(cfgs), execs, dict(sorted(by_cost.items()))))
     for k in sorted(run.counters):
         print("  %-44s %d" % (k, run.counters[k]))
     if len(run.outcomes) < 2:
